@@ -95,10 +95,23 @@ func init() {
 		"strings.TrimLeft":  strFn2(strings.TrimLeft),
 		"strings.TrimRight": strFn2(strings.TrimRight),
 		"strings.Split":     inStringsSplit,
+		"strings.Join": func(x *Exec, _ *ssa.Function, a []Value) Value {
+			var parts []string
+			for _, v := range sliceValues(x, a[0]) {
+				parts = append(parts, x.mustStr(v))
+			}
+			return Str{S: strings.Join(parts, x.mustStr(a[1]))}
+		},
 		"strings.Replace": func(x *Exec, _ *ssa.Function, a []Value) Value {
 			return Str{S: strings.Replace(x.mustStr(a[0]), x.mustStr(a[1]), x.mustStr(a[2]), int(a[3].(*smt.Term).Int()))}
 		},
 		"strconv.ParseFloat": func(x *Exec, _ *ssa.Function, a []Value) Value {
+			if hv, ok := x.holeValue(x.mustStr(a[0])); ok {
+				return Tuple{hv, IfaceV{}}
+			}
+			if strings.Contains(x.mustStr(a[0]), "@") {
+				return Tuple{x.C.FC(0), x.mkError("strconv.ParseFloat: placeholder embedded in other text: " + x.mustStr(a[0]))}
+			}
 			f, err := strconv.ParseFloat(x.mustStr(a[0]), int(a[1].(*smt.Term).Int()))
 			if err != nil {
 				return Tuple{x.C.FC(f), x.mkError("strconv.ParseFloat: " + err.Error())}
